@@ -489,8 +489,8 @@ theorem cursorDown_frame (s s' : St) (c : Int) (h : cursorDown s c = some s') : 
     have := setCursorPos_frame s (rowColToIndex s.text (row s.text s.cur + c.toNat) (origColumn s))
     simpa [Frame] using this
 
-theorem autoUp_frame (s s' : St) (c : Int) (g : Bool) (h : autoUp s c g = some s') : Frame s s' := by
-  simp only [autoUp] at h
+theorem autoUpPos_frame (s s' : St) (c : Int) (g : Bool) (h : autoUpPos s c g = some s') : Frame s s' := by
+  simp only [autoUpPos] at h
   split at h
   · exact cursorUp_frame s s' c h
   · cases h
@@ -498,14 +498,46 @@ theorem autoUp_frame (s s' : St) (c : Int) (g : Bool) (h : autoUp s c g = some s
     · exact (historyBackward_frame s c).trans (home_frame _)
     · exact historyBackward_frame s c
 
-theorem autoDown_frame (s s' : St) (c : Int) (g : Bool) (h : autoDown s c g = some s') : Frame s s' := by
-  simp only [autoDown] at h
+theorem autoDownPos_frame (s s' : St) (c : Int) (g : Bool) (h : autoDownPos s c g = some s') : Frame s s' := by
+  simp only [autoDownPos] at h
   split at h
   · exact cursorDown_frame s s' c h
   · cases h
     split
     · exact (historyForward_frame s c).trans (home_frame _)
     · exact historyForward_frame s c
+
+/-- `auto_up`: nothing (count 0), the upward body (count ≥ 1) or the downward body with the
+    negated count (count < 0) -/
+theorem autoUp_cases (s s' : St) (c : Int) (g : Bool) (h : autoUp s c g = some s') :
+    s' = s ∨ autoUpPos s c g = some s' ∨ autoDownPos s (-c) g = some s' := by
+  simp only [autoUp] at h
+  split at h
+  · split at h
+    · right; right; exact h
+    · left; cases h; rfl
+  · right; left; exact h
+
+theorem autoDown_cases (s s' : St) (c : Int) (g : Bool) (h : autoDown s c g = some s') :
+    s' = s ∨ autoDownPos s c g = some s' ∨ autoUpPos s (-c) g = some s' := by
+  simp only [autoDown] at h
+  split at h
+  · split at h
+    · right; right; exact h
+    · left; cases h; rfl
+  · right; left; exact h
+
+theorem autoUp_frame (s s' : St) (c : Int) (g : Bool) (h : autoUp s c g = some s') : Frame s s' := by
+  rcases autoUp_cases s s' c g h with rfl | h | h
+  · exact Frame.refl _
+  · exact autoUpPos_frame s s' c g h
+  · exact autoDownPos_frame s s' _ g h
+
+theorem autoDown_frame (s s' : St) (c : Int) (g : Bool) (h : autoDown s c g = some s') : Frame s s' := by
+  rcases autoDown_cases s s' c g h with rfl | h | h
+  · exact Frame.refl _
+  · exact autoDownPos_frame s s' c g h
+  · exact autoUpPos_frame s s' _ g h
 
 theorem validate_frame (v : Validator) (s : St) (b : Bool) : Frame s (validate v s b).1 := by
   simp only [validate]
